@@ -58,15 +58,15 @@ theorem dropWhile_none {α} (p : α → Bool) (s : List α) (h : ∀ c ∈ s, p 
   | cons c r => simp [List.dropWhile, h c (by simp)]
 
 /-- a string that neither starts nor ends with whitespace is its own `strip()` -/
-theorem strip_of_ends (s : List Char) (h1 : ∀ c, s.head? = some c → isSpace c = false)
-    (h2 : ∀ c, s.getLast? = some c → isSpace c = false) : strip s = s := by
-  unfold strip
-  have e1 : s.dropWhile isSpace = s := by
+theorem stripBy_of_ends (p : Char → Bool) (s : List Char) (h1 : ∀ c, s.head? = some c → p c = false)
+    (h2 : ∀ c, s.getLast? = some c → p c = false) : stripBy p s = s := by
+  unfold stripBy
+  have e1 : s.dropWhile p = s := by
     cases s with
     | nil => rfl
     | cons c r => simp [List.dropWhile, h1 c rfl]
   rw [e1]
-  have e2 : s.reverse.dropWhile isSpace = s.reverse := by
+  have e2 : s.reverse.dropWhile p = s.reverse := by
     cases hr : s.reverse with
     | nil => rfl
     | cons c r =>
@@ -75,10 +75,19 @@ theorem strip_of_ends (s : List Char) (h1 : ∀ c, s.head? = some c → isSpace 
       simp [List.dropWhile, h2 c this]
   rw [e2, List.reverse_reverse]
 
-theorem strip_no_space (s : List Char) (h : ∀ c ∈ s, isSpace c = false) : strip s = s := by
-  apply strip_of_ends
+theorem stripBy_none (p : Char → Bool) (s : List Char) (h : ∀ c ∈ s, p c = false) : stripBy p s = s := by
+  apply stripBy_of_ends
   · intro c hc; exact h c (List.mem_of_mem_head? hc)
   · intro c hc; exact h c (List.mem_of_mem_getLast? hc)
+
+theorem strip_of_ends (s : List Char) (h1 : ∀ c, s.head? = some c → isSpace c = false)
+    (h2 : ∀ c, s.getLast? = some c → isSpace c = false) : strip s = s := stripBy_of_ends isSpace s h1 h2
+
+theorem strip_no_space (s : List Char) (h : ∀ c ∈ s, isSpace c = false) : strip s = s := stripBy_none isSpace s h
+
+theorem isSpaceC_imp (c : Char) (h : isSpace c = false) : isSpaceC c = false := by
+  simp only [isSpace, isSpaceC, Bool.or_eq_false_iff, Bool.and_eq_false_iff, decide_eq_false_iff_not] at *
+  omega
 
 theorem natDigits_no_space (n : Nat) : ∀ c ∈ natDigits n, isSpace c = false := by
   intro c hc
@@ -97,7 +106,8 @@ theorem pyIntParse_pyStrInt (n : Int) : pyIntParse (pyStrInt n) = some n := by
   cases n with
   | ofNat k =>
     obtain ⟨c, r, hcr, hd⟩ := natDigits_head k
-    have hs : strip (natDigits k) = natDigits k := strip_no_space _ (natDigits_no_space k)
+    have hs : stripBy isSpaceC (natDigits k) = natDigits k :=
+      stripBy_none _ _ (fun c hc => isSpaceC_imp c (natDigits_no_space k c hc))
     have hm : c ≠ '-' := by rintro rfl; revert hd; decide
     have hp : c ≠ '+' := by rintro rfl; revert hd; decide
     simp only [pyIntParse, pyStrInt, hs]
@@ -112,7 +122,8 @@ theorem pyIntParse_pyStrInt (n : Int) : pyIntParse (pyStrInt n) = some n := by
       rcases List.mem_cons.mp hc with rfl | hc
       · decide
       · exact natDigits_no_space _ c hc
-    have hs : strip ('-' :: natDigits (k + 1)) = '-' :: natDigits (k + 1) := strip_no_space _ hns
+    have hs : stripBy isSpaceC ('-' :: natDigits (k + 1)) = '-' :: natDigits (k + 1) :=
+      stripBy_none _ _ (fun c hc => isSpaceC_imp c (hns c hc))
     simp only [pyIntParse, pyStrInt, hs, parseDigits_natDigits, Option.map]
     rfl
 
